@@ -63,4 +63,15 @@ def equalSizeCount (n : Nat) (r f L : Rat) : Nat :=
 /-- `_convert_number_of_engines_on_to_status_matrix`: the first `k` sets on. -/
 def firstOn (n k : Nat) : Pat := (List.range n).map (· < k)
 
+/-! ### The load the table is asked with -/
+
+/-- What the power sources of a bus have to carry: the consumers and the power every PTI/PTO is given to take from the bus
+(positive: motoring, negative: feeding in) at the steps where it does not share the load (mode ≠ 0) - D109;
+`(power, mode)` per PTI/PTO. -/
+def busLoad (consumers : Rat) (ptis : List (Rat × Rat)) : Rat :=
+  consumers + (ptis.map fun pm => if pm.2 = 0 then 0 else pm.1 * pm.2).sum
+
+/-- As found: the consumers alone. -/
+def busLoadLegacy (consumers : Rat) (_ptis : List (Rat × Rat)) : Rat := consumers
+
 end Feems.Pms
